@@ -246,6 +246,61 @@ def camb_wcdm_scenario():
     return viol, 2
 
 
+def caller_arrays_scenario():
+    """arrays owned by the caller and passed as model parameters (the k/T table of the FromArray transfer model; stand-alone component and
+    through the framework, one instance and two instances built from the same arrays) are never modified, arrays already returned are never
+    modified by building/reading another instance, and both instances give the same outputs"""
+    realfuzz.init()
+    viol, n = [], 0
+    from astropy.cosmology import Planck15
+    from hmf.density_field.transfer import Transfer
+    from hmf.density_field import transfer_models as tm
+    with warnings.catch_warnings():
+        warnings.simplefilter("ignore")
+        np.seterr(all="ignore")
+        for label, amp, lo in (("unit-amplitude table", 1.0, 1e-5), ("raw-unit table (T ~ 1e3)", 1761.0, 1e-5), ("table starting inside the requested range", 35.0, 1e-2)):
+            k = np.exp(np.linspace(np.log(lo), np.log(50.0), 50))
+            T = amp * np.exp(tm.BBKS(Planck15).lnt(np.log(k)))
+            k0, T0 = k.copy(), T.copy()
+            script = [f"k = exp(linspace(ln {lo}, ln 50, 50)); T = {amp} * T_BBKS(k)"]
+
+            def unchanged(step):
+                if not (np.array_equal(k, k0) and np.array_equal(T, T0)):
+                    viol.append({"key": "caller-arrays/FromArray", "what": f"{label}: the caller's k/T arrays were modified by `{step}` (T[0] {T0[0]:.6g} -> {T[0]:.6g})",
+                                 "replay": {"kind": "c11-program", "script": script + [step]}})
+                    k[:] = k0; T[:] = T0
+                    return False
+                return True
+            c = tm.FromArray(Planck15, k=k, T=T)
+            unchanged("c = FromArray(Planck15, k=k, T=T)")
+            for req in (np.linspace(-14, 3, 40), np.linspace(-3, 3, 20)):
+                c.lnt(req.copy()); n += 1
+                unchanged(f"c.lnt(linspace({req[0]}, {req[-1]}, {len(req)}))")
+            grid = dict(lnk_min=-12.0, lnk_max=3.0, dlnk=0.25)
+            a = Transfer(transfer_model="FromArray", transfer_params={"k": k, "T": T}, **grid)
+            unchanged("a = Transfer(transfer_model='FromArray', transfer_params={'k': k, 'T': T}, ...)")
+            tf_a = a.transfer_function; n += 1
+            keep = tf_a.copy()
+            pa = a.power.copy()
+            unchanged("a.transfer_function; a.power")
+            b = Transfer(transfer_model="FromArray", transfer_params={"k": k, "T": T}, **grid)
+            tf_b = b.transfer_function; n += 1
+            unchanged("b = Transfer(... same arrays ...); b.transfer_function")
+            if not np.array_equal(tf_a, keep):
+                viol.append({"key": "returned-array/FromArray-second-instance", "what": f"{label}: the array returned by a.transfer_function changed when a second instance was built from the same caller arrays and read",
+                             "replay": {"kind": "c11-program", "script": script + ["a = Transfer(FromArray, k, T); x = a.transfer_function", "b = Transfer(FromArray, k, T); b.transfer_function", "x changed"]}})
+            if not (np.array_equal(tf_b, keep) and np.array_equal(b.power, pa)):
+                viol.append({"key": "equal-arguments/FromArray", "what": f"{label}: two instances built from equal arguments (the same caller arrays) give different transfer_function/power (max rel diff {float(np.max(np.abs(tf_b / keep - 1))):.3g})",
+                             "replay": {"kind": "c11-program", "script": script + ["a = Transfer(FromArray, k, T); a.transfer_function", "b = Transfer(FromArray, k, T); b.transfer_function != a.transfer_function"]}})
+            a.update(lnk_min=-6.0); a.transfer_function; n += 1
+            unchanged("a.update(lnk_min=-6.0); a.transfer_function")
+    seen, outv = set(), []
+    for v in viol:
+        if v["key"] not in seen:
+            seen.add(v["key"]); outv.append(v)
+    return outv, n
+
+
 def run(ctx):
     quick = ctx["tier"] == "quick"
     out = {"violations": [], "broken": [], "coverage": {}, "assumptions": [
@@ -261,8 +316,10 @@ def run(ctx):
     out["violations"] += pv
     cv, ncamb = camb_wcdm_scenario()
     out["violations"] += cv
+    av, narr = caller_arrays_scenario()
+    out["violations"] += av
     nprog = 40 if quick else 400
-    tot, kinds = ncamb, {}
+    tot, kinds = ncamb + narr, {}
     samples = []
     for _ in range(nprog):
         v, nops, k, script = program(r, quick)
@@ -277,7 +334,7 @@ def run(ctx):
     out["coverage"] = {
         "evaluations": tot + st["ops"], "programs": st["programs"] + nprog, "disagreements_checked": st["programs"],
         "traces_validated_against_impl": st["programs"], "distinct_nontrivial": nprog + st["programs"],
-        "rule": "heapcorr: random programs over 2-3 MassFunctionWDM instances (construction from shared caller dicts, update/assign, deepcopy/clone/pickle, caller-side mutation, component instantiation), identity partition + contents compared with the Lean heap model. snapshot oracle: random programs over all five classes with bystander snapshots after every operation",
+        "rule": "heapcorr: random programs over 2-3 MassFunctionWDM instances (construction from shared caller dicts, update/assign, deepcopy/clone/pickle, caller-side mutation, component instantiation), identity partition + contents compared with the Lean heap model. snapshot oracle: random programs over all five classes with bystander snapshots after every operation; caller-owned k/T arrays of FromArray (3 tables; component and framework, two instances from the same arrays)",
         "heap": st, "read_purity_reads": npure, "snapshot_ops": tot, "snapshot_op_kinds": kinds, "samples": [st["sample"]] + samples,
         "search": "bystander-snapshot oracle on random multi-instance programs",
     }
